@@ -96,6 +96,7 @@ def run(ctx, replay_cases=None):
     cases = vlib.read_jsonl(p)
     reset = [c for c in cases if c["stream"].startswith("reset")]
     runs = [c for c in cases if c["stream"] == "run"]
+    pcases = [c for c in cases if c["stream"] == "params"]
     # ---- correspondence: which nodes the real setupRetry cleared vs the model -------------------------
     for c in reset:
         if c.get("err"):
@@ -121,6 +122,19 @@ def run(ctx, replay_cases=None):
             nontrivial.add(json.dumps([c["deps"], c["rec"], c["cof"], c["cos"], c["pre"]]))
         if bad:
             ctx.fail("monitor", "; ".join(bad[:3]), c, cls={"class": cls["class"]})
+    # ---- monitor: the retry re-uses the parameter values of the recorded run --------------------------
+    pdist = set()
+    for c in pcases:
+        if c.get("err"):
+            ctx.fail("monitor", "loading the DAG with generated parameters failed: " + c["err"], c, cls={"class": "params-load"})
+            continue
+        if "VERIF_C10_E" in (c["default"] + c["given"]) or "=" in (c["given"] or c["default"]):
+            pdist.add(json.dumps([c["default"], c["given"]]))
+        if c["first"] != c["second"]:
+            ctx.fail("monitor", "the retry does not see the parameter values of the recorded run: first run saw %s, recorded "
+                     "Params %r, retry sees %s" % (json.dumps(c["first"], sort_keys=True), c["recorded"], json.dumps(c["second"], sort_keys=True)),
+                     c, cls={"class": "params-reuse"})
+    nontrivial |= pdist
     for c in reset_ok:
         if any(s in (2, 3) for s in c["st"]) and any(c["deps"]):
             nontrivial.add(json.dumps([c["deps"], c["st"]]))
@@ -132,16 +146,20 @@ def run(ctx, replay_cases=None):
                        "4-8 nodes, cleared set compared with the Coq setup_retry; run stream: a first run of a random DAG on the "
                        "real scheduler (scripted executor; failures, retries, unmet preconditions, stop, mid-run snapshot = what "
                        "a killed process leaves), then the retry of the recorded table, monitored against the property "
-                       "(executed set = unfinished part + downstream, others untouched, dependency order, termination). "
+                       "(executed set = unfinished part + downstream, others untouched, dependency order, termination); params "
+                       "stream: dag.Load(file, given) -> recorded Params string (model.Params) -> dag.Load(file, recorded) in a "
+                       "process whose environment changed meanwhile, values of $1..$n/$NAME compared (parameter values without "
+                       "spaces or quotes; those are C11's subject). "
                        "non-trivial = at least one dependency edge and at least one recorded step that is not finished/skipped; "
                        "distinct by (graph, recorded vector, flags)")
-    ctx.cov["streams"] = {"reset": len(reset), "run": len(runs)}
+    ctx.cov["streams"] = {"reset": len(reset), "run": len(runs), "params": len(pcases)}
     ctx.cov["run_classes"] = classes
     ctx.cov["exhaustive"] = False
-    for c in reset_ok[300:301] + runs[:2]:
+    for c in reset_ok[300:301] + runs[:2] + pcases[:1]:
         ctx.sample(c)
     ctx.assumptions = ["retry runs use scripts in which every re-executed command succeeds",
-                       "step names distinct; graph acyclic (admission is C14)"]
+                       "step names distinct; graph acyclic (admission is C14)",
+                       "parameter re-use is monitored for values without white space or quotes (C11 covers the tokenizer and its known findings)"]
     if ctx.tier == "thorough":
         ctx.coqchk()
     return ctx.finish()
